@@ -1,13 +1,40 @@
-(* C45 — tornado.log.LogFormatter.format, from the point where the record's
-   message text and exception text are known.  Text = list of code points.
-   Definitions only. *)
-From Coq Require Import List NArith Bool.
+(* C45 — tornado.log.LogFormatter (format, the colour table built by __init__) and
+   tornado.log._safe_unicode / tornado.escape.to_unicode.
+   Text = list of code points, bytes = list of byte values.  Definitions only.
+
+   What is an ORACLE (input of the model, computed by the stdlib on the very record):
+   the outcome of record.getMessage() (returned value or raised exception class + repr(e)),
+   repr(record.__dict__), Formatter.formatTime, Formatter.formatException.
+   What is MODELLED: everything LogFormatter.format does with them — the try/except Exception
+   around getMessage/assert/_safe_unicode, the "Bad message" fallback, the colour lookup,
+   `self._fmt % record.__dict__` (a %-interpreter for mapping keys, conversions s and d),
+   the exc_info / exc_text branch (with the caching of record.exc_text), rstrip, the per-line
+   _safe_unicode, the join and the final replace("\n", "\n    "). *)
+From Coq Require Import List NArith ZArith Bool Ascii String.
 Import ListNotations.
+From TV Require Import C14.Utf8.
 Local Open Scope N_scope.
 
 Definition text := list N.
 Definition NL : N := 10.
 Definition SP : N := 32.
+
+Fixpoint t_of_string (s : string) : text :=
+  match s with
+  | EmptyString => []
+  | String a s' => N_of_ascii a :: t_of_string s'
+  end.
+
+Definition text_eqb (a b : text) : bool :=
+  (fix go (x y : text) : bool :=
+     match x, y with
+     | [], [] => true
+     | c :: x', d :: y' => (c =? d) && go x' y'
+     | _, _ => false
+     end) a b.
+
+(* ------------------------------------------------------------------ *)
+(* the text pipeline of the last lines of format()                      *)
 
 (* str.isspace() code points (what str.rstrip() with no argument removes) *)
 Definition is_space (c : N) : bool :=
@@ -45,24 +72,6 @@ Fixpoint indent (s : text) : text :=
   | c :: s' => if c =? NL then NL :: SP :: SP :: SP :: SP :: indent s' else c :: indent s'
   end.
 
-(* record as seen by format():
-   prefix/suffix : the format string around %(message)s with every other field
-                   already interpolated (fmt % record.__dict__ is concatenation);
-   message       : record.message after the try/except (the safe text of
-                   getMessage(), or the "Bad message (...)" text);
-   exc_text      : record.exc_text after the exc_info branch ([] = falsy). *)
-Record record := { prefix : text; message : text; suffix : text; exc_text : text }.
-
-Definition formatted0 (r : record) : text := prefix r ++ message r ++ suffix r.
-
-Definition format (r : record) : text :=
-  let f0 := formatted0 r in
-  let f1 := match exc_text r with
-            | [] => f0
-            | e => join_nl (rstrip f0 :: split_nl e)
-            end in
-  indent f1.
-
 (* the property on an output string: every newline is followed by 4 spaces *)
 Fixpoint nl_indented (s : text) : bool :=
   match s with
@@ -88,3 +97,424 @@ with drop4 (s : text) : text :=
   | _ :: (_ :: (_ :: (_ :: t) as s3) as s2) as s1 => unindent t
   | _ => []
   end.
+
+Definition has_nl (s : text) : bool := existsb (fun c => c =? NL) s.
+
+(* ------------------------------------------------------------------ *)
+(* exception classes and `except` clauses                               *)
+
+Inductive exc_class :=
+| EBaseException | EException | ETypeError | EValueError | EUnicodeError
+| EUnicodeDecodeError | EUnicodeEncodeError | ELookupError | EKeyError | EIndexError
+| EArithmeticError | EOverflowError | EZeroDivisionError | EAssertionError
+| EAttributeError | ERuntimeError | ERecursionError | ENotImplementedError
+| EOSError | EMemoryError | EStopIteration
+| EKeyboardInterrupt | ESystemExit | EGeneratorExit
+| EUserException      (* class X(Exception) defined by the application *)
+| EUserBase.          (* class X(BaseException) defined by the application *)
+
+Definition exc_id (c : exc_class) : N :=
+  match c with
+  | EBaseException => 0 | EException => 1 | ETypeError => 2 | EValueError => 3 | EUnicodeError => 4
+  | EUnicodeDecodeError => 5 | EUnicodeEncodeError => 6 | ELookupError => 7 | EKeyError => 8
+  | EIndexError => 9 | EArithmeticError => 10 | EOverflowError => 11 | EZeroDivisionError => 12
+  | EAssertionError => 13 | EAttributeError => 14 | ERuntimeError => 15 | ERecursionError => 16
+  | ENotImplementedError => 17 | EOSError => 18 | EMemoryError => 19 | EStopIteration => 20
+  | EKeyboardInterrupt => 21 | ESystemExit => 22 | EGeneratorExit => 23
+  | EUserException => 24 | EUserBase => 25
+  end.
+Definition exc_eqb (a b : exc_class) : bool := exc_id a =? exc_id b.
+
+(* the direct base class (CPython's built-in hierarchy) *)
+Definition exc_parent (c : exc_class) : option exc_class :=
+  match c with
+  | EBaseException => None
+  | EException | EKeyboardInterrupt | ESystemExit | EGeneratorExit | EUserBase => Some EBaseException
+  | ETypeError | EValueError | ELookupError | EArithmeticError | EAssertionError | EAttributeError
+  | ERuntimeError | EOSError | EMemoryError | EStopIteration | EUserException => Some EException
+  | EUnicodeError => Some EValueError
+  | EUnicodeDecodeError | EUnicodeEncodeError => Some EUnicodeError
+  | EKeyError | EIndexError => Some ELookupError
+  | EOverflowError | EZeroDivisionError => Some EArithmeticError
+  | ERecursionError | ENotImplementedError => Some ERuntimeError
+  end.
+
+(* issubclass(c, h): walk up the chain; the chain is at most 4 links long
+   (Proofs: fuel 6 always reaches BaseException) *)
+Fixpoint is_subclass_fuel (n : nat) (c h : exc_class) : bool :=
+  exc_eqb c h ||
+  match n with
+  | O => false
+  | S n' => match exc_parent c with Some p => is_subclass_fuel n' p h | None => false end
+  end.
+Definition is_subclass (c h : exc_class) : bool := is_subclass_fuel 6 c h.
+
+(* `except (h1, h2, ...)` catches an exception of class c *)
+Definition except_catches (handlers : list exc_class) (c : exc_class) : bool :=
+  existsb (is_subclass c) handlers.
+
+Definition exc_name (c : exc_class) : string :=
+  match c with
+  | EBaseException => "BaseException" | EException => "Exception" | ETypeError => "TypeError"
+  | EValueError => "ValueError" | EUnicodeError => "UnicodeError"
+  | EUnicodeDecodeError => "UnicodeDecodeError" | EUnicodeEncodeError => "UnicodeEncodeError"
+  | ELookupError => "LookupError" | EKeyError => "KeyError" | EIndexError => "IndexError"
+  | EArithmeticError => "ArithmeticError" | EOverflowError => "OverflowError"
+  | EZeroDivisionError => "ZeroDivisionError" | EAssertionError => "AssertionError"
+  | EAttributeError => "AttributeError" | ERuntimeError => "RuntimeError"
+  | ERecursionError => "RecursionError" | ENotImplementedError => "NotImplementedError"
+  | EOSError => "OSError" | EMemoryError => "MemoryError" | EStopIteration => "StopIteration"
+  | EKeyboardInterrupt => "KeyboardInterrupt" | ESystemExit => "SystemExit"
+  | EGeneratorExit => "GeneratorExit" | EUserException => "UserException" | EUserBase => "UserBase"
+  end%string.
+
+(* repr(e) of a raised exception, as far as it is known: it is text, or computing it raises
+   (an object with a broken __repr__), or it is outside the modelled fragment *)
+Inductive repr_res := ReprOk (t : text) | ReprRaises (c : exc_class) | ReprUnsup.
+
+(* outcome of a step: a value, an exception (class + its repr), or "outside the model" —
+   [Unsupported] is never equal to an implementation observable, so it fails closed *)
+Inductive outcome (A : Type) :=
+| Returned (a : A)
+| Raised (c : exc_class) (r : repr_res)
+| Unsupported.
+Arguments Returned {A} a.
+Arguments Raised {A} c r.
+Arguments Unsupported {A}.
+
+Definition bind {A B} (o : outcome A) (f : A -> outcome B) : outcome B :=
+  match o with
+  | Returned a => f a
+  | Raised c r => Raised c r
+  | Unsupported => Unsupported
+  end.
+Definition omap {A B} (f : A -> B) (o : outcome A) : outcome B := bind o (fun a => Returned (f a)).
+
+(* ------------------------------------------------------------------ *)
+(* Python values that can reach _safe_unicode, repr() of them            *)
+
+Inductive pyval :=
+| PNone
+| PStr (t : text)
+| PBytes (b : list N)
+| POther (type_repr : text).     (* any other object; repr(type(v)), e.g. <class 'int'> *)
+
+Definition hexd (n : N) : N := if n <? 10 then 48 + n else 87 + n.
+
+(* repr(b) for bytes: quote is " only if b contains ' and no " *)
+Definition bytes_quote (b : list N) : N :=
+  if existsb (N.eqb 39) b && negb (existsb (N.eqb 34) b) then 34 else 39.
+Definition repr_byte (q c : N) : text :=
+  if (c =? q) || (c =? 92) then [92; c]
+  else if c =? 9 then [92; 116]
+  else if c =? 10 then [92; 110]
+  else if c =? 13 then [92; 114]
+  else if (c <? 32) || (127 <=? c) then [92; 120; hexd (c / 16); hexd (c mod 16)]
+  else [c].
+Definition repr_bytes (b : list N) : text :=
+  let q := bytes_quote b in
+  98 :: q :: flat_map (repr_byte q) b ++ [q].
+
+(* repr(s) for str, on the fragment printable-ASCII-without-backslash (else Unsupported) *)
+Definition plain_char (c : N) : bool := (32 <=? c) && (c <=? 126) && negb (c =? 92).
+Definition repr_str (t : text) : outcome text :=
+  if forallb plain_char t then
+    let q := bytes_quote t in
+    Returned (q :: flat_map (fun c => if c =? q then [92; c] else [c]) t ++ [q])
+  else Unsupported.
+
+(* tornado.escape.to_unicode:
+     if isinstance(value, (str, type(None))): return value
+     if not isinstance(value, bytes): raise TypeError("Expected bytes, unicode, or None; got %r" % type(value))
+     return value.decode("utf-8")                                   *)
+Definition TO_UNICODE_MSG : text := t_of_string "Expected bytes, unicode, or None; got ".
+Definition exc_repr1 (cls : string) (msg : text) : repr_res :=
+  match repr_str msg with
+  | Returned r => ReprOk (t_of_string cls ++ 40 :: r ++ [41])
+  | _ => ReprUnsup
+  end.
+Definition to_unicode (v : pyval) : outcome pyval :=
+  match v with
+  | PStr _ | PNone => Returned v
+  | POther ty => Raised ETypeError (exc_repr1 "TypeError" (TO_UNICODE_MSG ++ ty))
+  | PBytes b =>
+      match utf8_decode b with
+      | Some t => Returned (PStr t)
+      | None => Raised EUnicodeDecodeError ReprUnsup
+      end
+  end.
+
+Definition py_repr (v : pyval) : outcome text :=
+  match v with
+  | PBytes b => Returned (repr_bytes b)
+  | PStr t => repr_str t
+  | PNone => Returned (t_of_string "None")
+  | POther _ => Unsupported
+  end.
+
+(* tornado.log._safe_unicode:
+     try: return _unicode(s)
+     except UnicodeDecodeError: return repr(s)                      *)
+Definition safe_unicode (v : pyval) : outcome pyval :=
+  match to_unicode v with
+  | Raised c r =>
+      if except_catches [EUnicodeDecodeError] c then omap PStr (py_repr v) else Raised c r
+  | o => o
+  end.
+
+(* ------------------------------------------------------------------ *)
+(* `fmt % mapping` for the fragment  %(key)[-][width][.prec](s|d)  and %% *)
+
+Inductive fval := VStr (t : text) | VInt (z : Z) | VNone.
+Definition env := list (text * fval).
+
+Fixpoint lookup (k : text) (e : env) : option fval :=
+  match e with
+  | [] => None
+  | (k', v) :: e' => if text_eqb k k' then Some v else lookup k e'
+  end.
+
+Fixpoint uint_text (u : Decimal.uint) : text :=
+  match u with
+  | Decimal.Nil => []
+  | Decimal.D0 u' => 48 :: uint_text u'
+  | Decimal.D1 u' => 49 :: uint_text u'
+  | Decimal.D2 u' => 50 :: uint_text u'
+  | Decimal.D3 u' => 51 :: uint_text u'
+  | Decimal.D4 u' => 52 :: uint_text u'
+  | Decimal.D5 u' => 53 :: uint_text u'
+  | Decimal.D6 u' => 54 :: uint_text u'
+  | Decimal.D7 u' => 55 :: uint_text u'
+  | Decimal.D8 u' => 56 :: uint_text u'
+  | Decimal.D9 u' => 57 :: uint_text u'
+  end.
+(* str(z) for an int *)
+Definition dec_Z (z : Z) : text :=
+  match z with
+  | Z0 => [48]
+  | Zpos p => uint_text (Pos.to_uint p)
+  | Zneg p => 45 :: uint_text (Pos.to_uint p)
+  end.
+
+Definition str_of_fval (v : fval) : text :=
+  match v with
+  | VStr t => t
+  | VInt z => dec_Z z
+  | VNone => t_of_string "None"
+  end.
+
+Definition pad (ljust : bool) (width : N) (t : text) : text :=
+  let n := N.of_nat (List.length t) in
+  if width <=? n then t
+  else let fill := repeat SP (N.to_nat (width - n)) in
+       if ljust then t ++ fill else fill ++ t.
+
+(* one conversion: conv is the code of 's' (115) or 'd' (100) *)
+Definition render (conv : N) (ljust : bool) (width : N) (prec : option N) (v : fval) : outcome text :=
+  if conv =? 115 then
+    let s := str_of_fval v in
+    let s := match prec with Some p => firstn (N.to_nat p) s | None => s end in
+    Returned (pad ljust width s)
+  else if conv =? 100 then
+    match v, prec with
+    | VInt z, None => Returned (pad ljust width (dec_Z z))
+    | VInt _, Some _ => Unsupported
+    | _, _ => Raised ETypeError ReprUnsup      (* %d format: a real number is required *)
+    end
+  else Unsupported.
+
+Definition is_digit (c : N) : bool := (48 <=? c) && (c <=? 57).
+
+(* parser/interpreter states; the looked-up value is carried from the ')' on, because
+   CPython looks the key up (KeyError) before it reads the rest of the specifier *)
+Inductive pstate :=
+| SLit                                   (* literal text *)
+| SPct                                   (* just after '%' *)
+| SKey (acc : text)                      (* inside %( ... , reversed *)
+| SFlags (v : fval) (ljust : bool)
+| SWidth (v : fval) (ljust : bool) (w : N)
+| SPrec (v : fval) (ljust : bool) (w : N) (p : N).
+
+Definition conv_step (rest : outcome text) (c : N) (ljust : bool) (w : N) (p : option N) (v : fval)
+  : outcome text :=
+  bind (render c ljust w p v) (fun t => omap (app t) rest).
+
+Fixpoint interp (e : env) (st : pstate) (s : text) : outcome text :=
+  match s with
+  | [] =>
+      match st with
+      | SLit => Returned []
+      | _ => Raised EValueError ReprUnsup          (* incomplete format / incomplete format key *)
+      end
+  | c :: s' =>
+      match st with
+      | SLit => if c =? 37 then interp e SPct s' else omap (cons c) (interp e SLit s')
+      | SPct =>
+          if c =? 37 then omap (cons 37) (interp e SLit s')
+          else if c =? 40 then interp e (SKey []) s'
+          else Unsupported                           (* positional specifier with a mapping *)
+      | SKey acc =>
+          if c =? 41 then
+            match lookup (rev acc) e with
+            | Some v => interp e (SFlags v false) s'
+            | None => Raised EKeyError ReprUnsup
+            end
+          else if c =? 40 then Unsupported           (* nested parentheses in a key *)
+          else interp e (SKey (c :: acc)) s'
+      | SFlags v ljust =>
+          if c =? 45 then interp e (SFlags v true) s'
+          else if c =? 48 then Unsupported           (* flag 0 *)
+          else if is_digit c then interp e (SWidth v ljust (c - 48)) s'
+          else if c =? 46 then interp e (SPrec v ljust 0 0) s'
+          else if (c =? 35) || (c =? 32) || (c =? 43) || (c =? 42) then Unsupported
+          else conv_step (interp e SLit s') c ljust 0 None v
+      | SWidth v ljust w =>
+          if is_digit c then interp e (SWidth v ljust (w * 10 + (c - 48))) s'
+          else if c =? 46 then interp e (SPrec v ljust w 0) s'
+          else conv_step (interp e SLit s') c ljust w None v
+      | SPrec v ljust w p =>
+          if is_digit c then interp e (SPrec v ljust w (p * 10 + (c - 48))) s'
+          else if c =? 42 then Unsupported
+          else conv_step (interp e SLit s') c ljust w (Some p) v
+      end
+  end.
+
+Definition percent_format (fmt : text) (e : env) : outcome text := interp e SLit fmt.
+
+(* ------------------------------------------------------------------ *)
+(* LogFormatter.__init__: the colour table                               *)
+
+(* color and _stderr_supports_color() false  ->  ColorOff;
+   true with curses absent (the colorama branch): "\033[2;3%dm" % code per level, normal "\033[0m".
+   (The curses branch takes the strings from terminfo and is not modelled.) *)
+Inductive color_cfg := ColorOff | ColorAnsi (colors : list (Z * Z)).
+
+Definition ansi_color (code : Z) : text := [27; 91; 50; 59; 51] ++ dec_Z code ++ [109].
+Definition ANSI_NORMAL : text := [27; 91; 48; 109].
+Definition DEFAULT_COLORS : list (Z * Z) := [(10, 4); (20, 2); (30, 3); (40, 1); (50, 5)]%Z.
+
+(* dict(colors.items()): a later duplicate key would win; keys from a dict are unique,
+   the harness supplies unique keys *)
+Fixpoint zlookup (k : Z) (l : list (Z * Z)) : option Z :=
+  match l with
+  | [] => None
+  | (k', v) :: l' => if Z.eqb k k' then Some v else zlookup k l'
+  end.
+
+(* (record.color, record.end_color) *)
+Definition colors_for (cfg : color_cfg) (levelno : Z) : text * text :=
+  match cfg with
+  | ColorOff => ([], [])
+  | ColorAnsi colors =>
+      match zlookup levelno colors with
+      | Some code => (ansi_color code, ANSI_NORMAL)
+      | None => ([], [])
+      end
+  end.
+
+(* ------------------------------------------------------------------ *)
+(* LogFormatter.format                                                   *)
+
+Inductive gm_result :=
+| GMReturn (v : pyval)                          (* record.getMessage() returned v *)
+| GMRaise (c : exc_class) (e_repr : repr_res).  (* it raised an exception of class c *)
+
+Record log_input := {
+  in_fmt : text;                    (* self._fmt *)
+  in_color : color_cfg;             (* what __init__ decided *)
+  in_optimized : bool;              (* python -O: the assert statement is compiled away *)
+  in_getmsg : gm_result;            (* oracle: record.getMessage() *)
+  in_dict_repr : repr_res;          (* oracle: repr(record.__dict__) at the time of the fallback *)
+  in_asctime : text;                (* oracle: self.formatTime(record, self.datefmt) *)
+  in_levelno : Z;                   (* record.levelno *)
+  in_fields : env;                  (* the other str/int entries of record.__dict__ *)
+  in_exc_info : bool;               (* truthiness of record.exc_info *)
+  in_exc_text : option text;        (* record.exc_text: None or a str *)
+  in_format_exc : outcome text      (* oracle: self.formatException(record.exc_info) *)
+}.
+
+Definition K_message := t_of_string "message".
+Definition K_asctime := t_of_string "asctime".
+Definition K_color := t_of_string "color".
+Definition K_end_color := t_of_string "end_color".
+Definition K_levelno := t_of_string "levelno".
+Definition K_exc_text := t_of_string "exc_text".
+
+Definition BAD1 := t_of_string "Bad message (".
+Definition BAD2 := t_of_string "): ".
+
+(* the `except` clause of format(): *)
+Definition FORMAT_EXCEPT : list exc_class := [EException].
+
+Definition repr_outcome (r : repr_res) : outcome text :=
+  match r with
+  | ReprOk t => Returned t
+  | ReprRaises c => Raised c ReprUnsup
+  | ReprUnsup => Unsupported
+  end.
+
+(* f"Bad message ({e!r}): {record.__dict__!r}" — e!r is evaluated first *)
+Definition bad_message (e_repr dict_repr : repr_res) : outcome text :=
+  bind (repr_outcome e_repr) (fun er =>
+  bind (repr_outcome dict_repr) (fun dr =>
+  Returned (BAD1 ++ er ++ BAD2 ++ dr))).
+
+(* the body of the try: the value assigned to record.message *)
+Definition try_body (i : log_input) : outcome pyval :=
+  match in_getmsg i with
+  | GMRaise c r => Raised c r
+  | GMReturn v =>
+      let is_str := match v with PStr _ => true | _ => false end in
+      if negb (in_optimized i) && negb is_str
+      then Raised EAssertionError (ReprOk (t_of_string "AssertionError()"))
+      else safe_unicode v
+  end.
+
+(* try: ... except Exception as e: record.message = f"Bad message ..." *)
+Definition message_of (i : log_input) : outcome fval :=
+  match try_body i with
+  | Returned (PStr t) => Returned (VStr t)
+  | Returned PNone => Returned VNone
+  | Returned _ => Unsupported                 (* _safe_unicode returns str or None only (Proofs) *)
+  | Raised c r =>
+      if except_catches FORMAT_EXCEPT c
+      then omap VStr (bad_message r (in_dict_repr i))
+      else Raised c r
+  | Unsupported => Unsupported
+  end.
+
+Definition truthy (t : option text) : bool :=
+  match t with Some (_ :: _) => true | _ => false end.
+
+Fixpoint safe_lines (ls : list text) : outcome (list text) :=
+  match ls with
+  | [] => Returned []
+  | l :: ls' =>
+      bind (safe_unicode (PStr l)) (fun v =>
+        match v with
+        | PStr t => omap (cons t) (safe_lines ls')
+        | _ => Unsupported
+        end)
+  end.
+
+(* record.__dict__ as seen by `self._fmt % record.__dict__` *)
+Definition format_env (i : log_input) (message : fval) : env :=
+  let '(color, end_color) := colors_for (in_color i) (in_levelno i) in
+  (K_end_color, VStr end_color) :: (K_color, VStr color) :: (K_asctime, VStr (in_asctime i))
+  :: (K_message, message) :: (K_levelno, VInt (in_levelno i)) :: in_fields i.
+
+(* result: the returned string and record.exc_text afterwards *)
+Definition format (i : log_input) : outcome (text * option text) :=
+  bind (message_of i) (fun message =>
+  bind (percent_format (in_fmt i) (format_env i message)) (fun formatted =>
+  bind (if in_exc_info i && negb (truthy (in_exc_text i))
+        then omap Some (in_format_exc i) else Returned (in_exc_text i)) (fun exc_text =>
+  match exc_text with
+  | Some (c :: e) =>                                   (* if record.exc_text: *)
+      bind (safe_lines (split_nl (c :: e))) (fun ls =>
+      Returned (indent (join_nl (rstrip formatted :: ls)), exc_text))
+  | _ => Returned (indent formatted, exc_text)
+  end))).
+
+Definition DEFAULT_FORMAT : text :=
+  t_of_string "%(color)s[%(levelname)1.1s %(asctime)s %(module)s:%(lineno)d]%(end_color)s %(message)s".
